@@ -101,4 +101,74 @@ theorem locked_safe (g : Rules) (n : Nat) (sched : List Nat) :
   have := ((LInv.start g n).exec sched).2.2 t ht l hl
   simp [hasFieldRule, this]
 
+/-! ### several executors: swap threads and validate-only threads -/
+
+theorem hasFieldRule_of_ws {l : Rules} (h : Rule.ws ∈ l) : hasFieldRule l = true := by
+  simp [hasFieldRule, h]
+
+/-- invariant of the atomic program with validate-only threads: the shared list always contains a
+field-existence rule, as does every list a `Validate` has used -/
+def MInv (s : State) : Prop :=
+  (∀ t ∈ s.threads, t.pc = .swap ∨ t.pc = .valRead ∨ t.pc = .done) ∧
+  hasFieldRule s.global = true ∧
+  (∀ t ∈ s.threads, ∀ l, t.seen = some l → hasFieldRule l = true)
+
+theorem MInv.start (g : Rules) (hg : hasFieldRule g = true) (n m : Nat) : MInv (startMixed .atomic g n m) := by
+  refine ⟨?_, hg, ?_⟩ <;> intro t ht <;> simp [startMixed, LockShape.entry] at ht <;>
+    rcases ht with ⟨_, rfl⟩ | ⟨_, rfl⟩ <;> simp
+
+theorem MInv.step {s : State} (h : MInv s) (i : Nat) : MInv (step s i) := by
+  obtain ⟨h1, h2, h3⟩ := h
+  unfold Race.step
+  cases hi : s.threads[i]? with
+  | none => exact ⟨h1, h2, h3⟩
+  | some t =>
+    have htm : t ∈ s.threads := List.mem_of_getElem? hi
+    simp only
+    rcases h1 t htm with hp | hp | hp
+    · have hst : stepThread s.global t = (swapRules s.global, { t with pc := .valRead }) := by
+        simp [stepThread, hp]
+      rw [hst]
+      refine ⟨?_, hasFieldRule_of_ws (ws_mem_swapRules _), ?_⟩
+      · intro x hx
+        rcases mem_setNth hx with rfl | hx
+        · simp
+        · exact h1 x hx
+      · intro x hx l hl
+        rcases mem_setNth hx with rfl | hx
+        · exact h3 t htm l hl
+        · exact h3 x hx l hl
+    · have hst : stepThread s.global t = (s.global, { t with pc := .done, seen := some s.global }) := by
+        simp [stepThread, hp]
+      rw [hst]
+      refine ⟨?_, h2, ?_⟩
+      · intro x hx
+        rcases mem_setNth hx with rfl | hx
+        · simp
+        · exact h1 x hx
+      · intro x hx l hl
+        rcases mem_setNth hx with rfl | hx
+        · simp at hl; subst hl; exact h2
+        · exact h3 x hx l hl
+    · have hst : stepThread s.global t = (s.global, t) := by simp [stepThread, hp]
+      rw [hst]
+      refine ⟨?_, h2, ?_⟩
+      · intro x hx
+        rcases mem_setNth hx with rfl | hx
+        · exact h1 x htm
+        · exact h1 x hx
+      · intro x hx l hl
+        rcases mem_setNth hx with rfl | hx
+        · exact h3 x htm l hl
+        · exact h3 x hx l hl
+
+theorem MInv.exec {s : State} (h : MInv s) (sched : List Nat) : MInv (exec s sched) := by
+  induction sched generalizing s with
+  | nil => exact h
+  | cons i is ih => exact ih (h.step i)
+
+theorem mixed_safe (g : Rules) (hg : hasFieldRule g = true) (n m : Nat) (sched : List Nat) :
+    ∀ t ∈ (exec (startMixed .atomic g n m) sched).threads, ∀ l, t.seen = some l → hasFieldRule l = true :=
+  ((MInv.start g hg n m).exec sched).2.2
+
 end GqlgenVerif.Pipeline.Race
